@@ -50,7 +50,7 @@ theorem simS_expr_target {n m : Nat} {e : Expr} (hinv : Inv ω mid D ds h0 s σ)
 theorem sSim_line {α α'} {V : VM ν → SState ν → α → α' → Prop} {T B} (l : Nat) (K : M ν α) (m' : SM ν α')
     (hinv : Inv ω mid D ds h0 s σ)
     (h : ∀ s0, Inv ω mid D ds h0 s0 σ → SimS V T B s0 σ K m') :
-    SimS V T B s σ (setTopFrame (fun fr => { fr with line := l }) >>= fun _ => K) m' := by
+    SimS V T B s σ (setTopFrame (fun fr => { fr with line := l, started := true }) >>= fun _ => K) m' := by
   refine simS_step (m2 := K) (setTopFrame_bind _ _ s) (h _ ⟨hinv.1.topS _ (fun _ => rfl), ?_, ?_⟩)
   · rw [topS_heap]; exact hinv.2.1
   · rw [slot_topS_line]; exact hinv.2.2
